@@ -104,7 +104,7 @@ def handleC18 (c : Case) : Verdict :=
   let labels := (lbl.splitOn ",").filter (· != "-")
   match c.find "res", c.find "opt", c.find "root" with
   | some r, some opt, some rootRec =>
-    if r.getD 1 "" == "hang" then .specfalse "C18:restore-hangs" lbl else
+    if r.getD 1 "" == "hang" then .agree false ("hang-timeout" :: labels) else
     let root := bytesOf (rootRec.getD 1 "-")
     let chg := (c.findAll "chg").toList.map fun x => (unhexStr (x.getD 1 "-")).getD "?"
     -- (b) the property on the implementation's own observation
